@@ -926,6 +926,9 @@ func (p *parser) closeBlocks(from, to int, reader text.Reader, pc Context) {
 		if node.Parent() != nil { // closes only if node has not been transformed
 			blocks[i].Parser.Close(blocks[i].Node, reader, pc)
 		}
+		if verifOn {
+			verifEmit("Close", reader, node, i)
+		}
 	}
 	if from == len(blocks)-1 {
 		blocks = blocks[0:to]
@@ -990,7 +993,7 @@ retry:
 		}
 		node, state := bp.Open(parent, reader, pc)
 		if verifOn {
-			verifEmit("Open", reader, bp, node, verifLine)
+			verifEmit("Open", reader, bp, node, verifLine, int(state), parent)
 		}
 		if node != nil {
 			// Parser requires last node to be a paragraph.
@@ -1012,6 +1015,9 @@ retry:
 					// closeBlocks().
 					lastBlock.Parser.Close(last, reader, pc)
 					blocks := pc.OpenedBlocks()
+					if verifOn {
+						verifEmit("Close", reader, last, len(blocks)-1)
+					}
 					pc.SetOpenedBlocks(blocks[0 : len(blocks)-1])
 					if p.transformParagraph(last.(*ast.Paragraph), reader, pc) {
 						// Paragraph has been transformed.
@@ -1041,6 +1047,9 @@ retry:
 continuable:
 	if result == noBlocksOpened && continuable {
 		state := lastBlock.Parser.Continue(lastBlock.Node, reader, pc)
+		if verifOn {
+			verifEmit("ParaContinue", reader, lastBlock.Parser, lastBlock.Node, int(state))
+		}
 		if state&Continue != 0 {
 			result = paragraphContinuation
 		}
